@@ -1,14 +1,30 @@
 import Fosite.Driver.Pure
+import Fosite.Driver.Hist
 open Fosite.Driver
+
+def chomp (line : String) : String :=
+  if line.back == '\n' then line.dropRight 1 else line
 
 partial def pureLoop (h : IO.FS.Stream) (out : IO.FS.Stream) (f : List String → Option String) : IO Unit := do
   let line ← h.getLine
   if line.isEmpty then return ()
-  let l := if line.back == '\n' then line.dropRight 1 else line
-  match f (fields l) with
+  match f (fields (chomp line)) with
   | some s => out.putStrLn s
   | none => out.putStrLn "bad-op"
   pureLoop h out f
+
+/-- history driver: a line "reset" starts a new history from the initial state -/
+partial def histLoop (h : IO.FS.Stream) (out : IO.FS.Stream) (st : HistState) : IO Unit := do
+  let line ← h.getLine
+  if line.isEmpty then return ()
+  let l := chomp line
+  if l == "reset" then
+    out.putStrLn "reset"
+    histLoop h out {}
+  else
+    let (st', o) := histStep st l
+    out.putStrLn o
+    histLoop h out st'
 
 def main (args : List String) : IO UInt32 := do
   let stdin ← IO.getStdin
@@ -16,4 +32,5 @@ def main (args : List String) : IO UInt32 := do
   match args with
   | ["pure-model"] => pureLoop stdin stdout pureModel; return 0
   | ["pure-spec"] => pureLoop stdin stdout pureSpec; return 0
-  | _ => IO.eprintln "usage: fzdriver (pure-model|pure-spec)"; return 2
+  | ["hist-model"] => histLoop stdin stdout {}; return 0
+  | _ => IO.eprintln "usage: fzdriver (pure-model|pure-spec|hist-model)"; return 2
